@@ -1952,6 +1952,10 @@ TARGETS2 = {
     "CDictH": [
         ("varintDict.c", "size_mul_overflow", "dictMulOverflow"),
     ],
+    "CBP": [
+        ("varintBP128.c", "varintBP128BitsNeeded64", "bpBitsNeeded64"),
+        ("varintBP128.c", "varintBP128MaxBitWidth64", "bpMaxBitWidth64"),
+    ],
     "CElias": [
         ("varintElias.c", "floorLog2", "eliasFloorLog2"),
         ("varintElias.c", "varintEliasGammaBits", "eliasGammaBits"),
